@@ -270,3 +270,97 @@ func init() {
 		return sched.Config{Bounds: b, Iterative: true}, c02stackBody
 	}})
 }
+
+// ---------------------------------------------------------------------------
+// C02 (S) driver 4: multi-key requests whose children are completed by different threads
+// (two backend readers, a reader racing a drain or a synchronous failure).
+//
+// alphabet  MSET / MGET / DEL (sum) with 2 or 3 children (INPUT); one thread per child
+// bound     all schedules of the completing threads within P (quick 2, thorough 3), delays unbounded
+// oracle    the raw request is completed exactly once (a second completion panics) with the combined reply
+// ---------------------------------------------------------------------------
+
+func c02splitBody() {
+	kind := sched.Choose(sched.ClsInput, 3, "kind")
+	n := 2 + sched.Choose(sched.ClsInput, 2, "children")
+	var raw *rawRequest
+	var children []*simpleRequest
+	var replies []*RespValue
+	name := ""
+	switch kind {
+	case 0:
+		name = "mset"
+		args := []string{"mset"}
+		for i := 0; i < n; i++ {
+			args = append(args, fmt.Sprintf("k%d", i), "v")
+		}
+		raw = newRawRequest(newStringArray(args...))
+		r, _ := newMSetRequest(raw)
+		children = r.Split()
+		for range children {
+			replies = append(replies, newSimpleString("OK"))
+		}
+	case 1:
+		name = "mget"
+		args := []string{"mget"}
+		for i := 0; i < n; i++ {
+			args = append(args, fmt.Sprintf("k%d", i))
+		}
+		raw = newRawRequest(newStringArray(args...))
+		r, _ := newMGetRequest(raw)
+		children = r.Split()
+		for i := range children {
+			replies = append(replies, newBulkString(fmt.Sprintf("v%d", i)))
+		}
+	case 2:
+		name = "del"
+		args := []string{"del"}
+		for i := 0; i < n; i++ {
+			args = append(args, fmt.Sprintf("k%d", i))
+		}
+		raw = newRawRequest(newStringArray(args...))
+		r, _ := newSumResultRequest(raw)
+		children = r.Split()
+		for range children {
+			replies = append(replies, newInteger(1))
+		}
+	}
+	for i := range children {
+		i := i
+		sched.GoNamed(fmt.Sprintf("completer%d", i), func() { children[i].SetResponse(replies[i]) })
+	}
+	sched.WaitQuiescent()
+	select {
+	case <-raw.done:
+	default:
+		sched.Fail("multi-key-request-never-completed / "+name, fmt.Sprintf("%d children completed, the request has no reply", n))
+	}
+	got := toSim(raw.Response())
+	var want resp.Value
+	switch kind {
+	case 0:
+		want = resp.Simple("OK")
+	case 1:
+		vs := make([]resp.Value, n)
+		for i := range vs {
+			vs[i] = resp.BulkS(fmt.Sprintf("v%d", i))
+		}
+		want = resp.Array(vs...)
+	case 2:
+		want = resp.Int(int64(n))
+	}
+	if !resp.Equal(got, want) {
+		sched.Fail("multi-key-reply-differs / "+name, fmt.Sprintf("got %s want %s", got, want))
+	}
+	sched.SetOutcome(name + " " + got.String())
+}
+
+func init() {
+	sched.Register(&sched.Scenario{Name: "C02/split", Setup: func(tier string) (sched.Config, func()) {
+		b := sched.Bounds{P: 2, F: -1}
+		if tier == "thorough" {
+			b.P = 3
+		}
+		return sched.Config{Bounds: b, Iterative: true}, c02splitBody
+	}})
+}
